@@ -63,6 +63,8 @@ static void signature(hwloc_topology_t t, struct sb *b, int with_types, int with
       sb_printf(b, "@%d", p ? p->depth : -1);
       if (with_indexes) sb_printf(b, "#%u", n->os_index);
       if (with_sizes) sb_printf(b, "(mem=%" PRIu64 ")", n->attr->numanode.local_memory);
+      /* memory-side caches in front of the node, innermost first */
+      if (with_sizes) for (hwloc_obj_t mc = n->parent; mc && mc->type == HWLOC_OBJ_MEMCACHE; mc = mc->parent) sb_printf(b, "(msc=%" PRIu64 ")", mc->attr->cache.size);
       sb_putc(b, ',');
     }
   } else sb_printf(b, " NUMAcount-ignored");
